@@ -18,4 +18,11 @@ theorem killer_phases_eq : Extracted.killerPhases = killerPhases := by decide
 /-- timers are stopped with `backoff = timeout = None` by both functions -/
 theorem timers_force_none : Extracted.timersForceNone = true := by decide
 
+/-- `_timer`'s after-run idle loop tests the stopper: the variant `progress` is about -/
+theorem timer_loop_guarded : Extracted.timerIdleLoopGuarded = treeGuarded := by decide
+
+/-- `daemon_killer` iterates snapshots (`list(...)`) of the memories and of each `running_daemons`,
+    never a live dict view across an await: the iteration `killer_sweep_visits_all` is about -/
+theorem killer_iterates_snapshots : Extracted.killerIteratesSnapshots = true := by decide
+
 end Kopf.C09.Tie
